@@ -167,21 +167,113 @@ def _worker(args):
             "evals": evals, "sim_seconds": sim_seconds, "runs": n}
 
 
+# ---------------------------------------------------------------------------------- interpreter variants
+def variant_main():
+    """Entry of a worker started as a FRESH interpreter with other interpreter flags (e.g. `python -O`, which strips
+    `assert` statements from the code under test).  Arguments and results travel as pickle files."""
+    import pickle
+
+    argfile, outfile = sys.argv[1], sys.argv[2]
+    env.bootstrap()
+    with open(argfile, "rb") as f:
+        args = pickle.load(f)
+    r = _worker(args)
+    with open(outfile, "wb") as f:
+        pickle.dump(r, f)
+
+
+def _run_variant(mod, tier, seed, flags, indices, known_sigs, wall_cap, nproc):
+    """Run `indices` in `nproc` fresh interpreters started with `flags`; returns the list of worker results."""
+    import pickle
+
+    base = os.path.join(env.SANDBOX, "variant")
+    os.makedirs(base, exist_ok=True)
+    parts = [indices[i::nproc] for i in range(nproc)]
+    procs = []
+    code = "import sys; sys.path.insert(0, %r); from simv.core import engine; engine.variant_main()" % (env.VERIF_ROOT,)
+    for n, part in enumerate(parts):
+        if not part:
+            continue
+        af, of = os.path.join(base, f"a{n}.pkl"), os.path.join(base, f"o{n}.pkl")
+        with open(af, "wb") as f:
+            pickle.dump((mod.__name__, tier, seed, part, known_sigs, frozenset(), wall_cap), f)
+        procs.append((subprocess.Popen([sys.executable] + list(flags) + ["-B", "-c", code, af, of], stdout=subprocess.PIPE,
+                                       stderr=subprocess.STDOUT, text=True), of, part))
+    out = []
+    for p, of, part in procs:
+        try:
+            so, _ = p.communicate(timeout=wall_cap + 180)
+        except subprocess.TimeoutExpired:
+            p.kill()
+            raise HarnessError(f"interpreter variant {' '.join(flags)} timed out on indices {part[0]}..{part[-1]}")
+        if p.returncode != 0 or not os.path.isfile(of):
+            raise HarnessError(f"interpreter variant {' '.join(flags)} failed (rc={p.returncode}): {so[-1500:]}")
+        with open(of, "rb") as f:
+            out.append(pickle.load(f))
+        os.remove(of)
+    return out
+
+
 # ---------------------------------------------------------------------------------- main entry
 def write_replay(mod, v: dict, seed: int) -> str:
     d = os.path.join(out_root(), "replays", mod.ID)
     os.makedirs(d, exist_ok=True)
     sig_h = hashlib.sha256(v["signature"].encode()).hexdigest()[:10]
     path = os.path.join(d, f"{sig_h}-{seed}-{v['index']}.json")
-    res = mod.run_plan(v["plan"], trace=True) if _accepts_trace(mod) else mod.run_plan(v["plan"])
+    # The plan is executed in exactly the form a replay will load it in (a JSON round trip with sorted keys): anything a
+    # check derives from the plan's dict order (a repr in a detail string, say) is then the same in both.
+    plan = json.loads(json.dumps(v["plan"], sort_keys=True, default=_json_default))
+    flags = plan.get("interp") if isinstance(plan, dict) else None
+    if flags and not _interp_matches(flags):
+        res = _run_plan_in_variant(mod, plan, flags)
+    else:
+        res = mod.run_plan(plan, trace=True) if _accepts_trace(mod) else mod.run_plan(plan)
+    again = next((x for x in res.violations if x["signature"] == v["signature"]), None)
     doc = {
         "property": mod.ID, "check": mod.CHECK, "signature": v["signature"], "clause": v["clause"],
-        "detail": v["detail"], "verif_seed": seed, "run_index": v["index"], "minimised": v.get("shrunk", False),
-        "digest": res.digest, "plan": v["plan"], "trace": res.trace, "repo_head": env.repo_head(),
+        "detail": again["detail"] if again else v["detail"], "verif_seed": seed, "run_index": v["index"], "minimised": v.get("shrunk", False),
+        "digest": res.digest, "plan": plan, "trace": res.trace, "repo_head": env.repo_head(),
     }
     with open(path, "w") as f:
         json.dump(doc, f, indent=1, sort_keys=True, default=_json_default)
     return path
+
+
+def _interp_matches(flags) -> bool:
+    want = sum(f.count("O") for f in flags if f.startswith("-O"))
+    return sys.flags.optimize == want
+
+
+class _Res:
+    pass
+
+
+def _run_plan_in_variant(mod, plan, flags):
+    """Execute one plan in a fresh interpreter with `flags`; returns an object with digest / trace / violations."""
+    import pickle
+
+    base = os.path.join(env.SANDBOX, "variant")
+    os.makedirs(base, exist_ok=True)
+    af, of = os.path.join(base, "one-a.pkl"), os.path.join(base, "one-o.pkl")
+    with open(af, "wb") as f:
+        pickle.dump((mod.__name__, plan), f)
+    code = ("import sys, pickle; sys.path.insert(0, %r)\n"
+            "from simv.core import env; env.bootstrap()\n"
+            "import importlib, gc; gc.disable()\n"
+            "name, plan = pickle.load(open(sys.argv[1], 'rb'))\n"
+            "mod = importlib.import_module(name)\n"
+            "from simv.core import engine\n"
+            "r = mod.run_plan(plan, trace=True) if engine._accepts_trace(mod) else mod.run_plan(plan)\n"
+            "pickle.dump({'digest': r.digest, 'trace': r.trace, 'violations': r.violations}, open(sys.argv[2], 'wb'))\n") % (env.VERIF_ROOT,)
+    p = subprocess.run([sys.executable] + list(flags) + ["-B", "-c", code, af, of], capture_output=True, text=True, timeout=900)
+    if p.returncode != 0 or not os.path.isfile(of):
+        raise HarnessError(f"replay under interpreter flags {flags} failed: rc={p.returncode} {p.stderr[-1500:]}")
+    with open(of, "rb") as f:
+        d = pickle.load(f)
+    os.remove(of)
+    r = _Res()
+    r.digest, r.trace, r.violations = d["digest"], d["trace"], d["violations"]
+    return r
 
 
 def _json_default(o):
@@ -315,6 +407,39 @@ def run_check(mod, tier: str) -> int:
             else:
                 stopped_early = True
 
+    # ------------------------------------------------------------------ interpreter variants (swarm: configuration of the interpreter)
+    variant_report = {}
+    for var in getattr(mod, "INTERP_VARIANTS", ()):
+        if harness_errors:
+            break
+        flags = list(var["flags"])
+        nv = min(total, int(var["runs"][tier]))
+        # the first indices (for checks that enumerate, the enumeration lives there) plus an even spread over the rest
+        head = list(range(min(nv // 2, total)))
+        rest = [i for i in range(len(head), total, max(1, (total - len(head)) // max(1, nv - len(head))))][: nv - len(head)]
+        vidx = head + rest
+        try:
+            vres = _run_variant(mod, tier, seed, flags, vidx, known_sigs, wall_cap, min(workers, 8))
+        except HarnessError as e:
+            harness_errors.append(str(e))
+            break
+        vruns = 0
+        for r in vres:
+            if "harness_error" in r:
+                harness_errors.append(f"[variant {' '.join(flags)}] " + r["harness_error"])
+                continue
+            vruns += r["runs"]
+            evals += r["evals"]
+            runs += r["runs"]
+            sim_seconds += r["sim_seconds"]
+            agg.update(r["agg"])
+            for sig, v in r["viols"].items():
+                v["plan"] = dict(v["plan"], interp=flags)
+                cur = viols.get(sig)
+                if cur is None or (v.get("size", 1 << 60), v["index"]) < (cur.get("size", 1 << 60), cur["index"]):
+                    viols[sig] = v
+        variant_report[" ".join(flags)] = {"runs": vruns, "what": var.get("what", "")}
+
     if harness_errors:
         for h in harness_errors[:3]:
             print(f"HARNESS-ERROR property={mod.ID} {h}")
@@ -398,6 +523,7 @@ def run_check(mod, tier: str) -> int:
         "known_findings_matched": [e["signature"] for e in known_hit],
         "real_vs_stub": getattr(mod, "REAL_VS_STUB", {}),
         "determinism_sample": det_report,
+        "interpreter_variants": variant_report,
         "repo_head": env.repo_head(),
     }
     # scripted faults (exceptions, failing commands, damaged lines, crash points ...) are counted by the checks as probes;
@@ -431,7 +557,12 @@ def replay(path: str) -> int:
         doc = json.load(f)
     mod = importlib.import_module(CHECK_MODULES[doc["property"]])
     plan = doc["plan"]
-    res = mod.run_plan(plan, trace=True) if _accepts_trace(mod) else mod.run_plan(plan)
+    flags = plan.get("interp") if isinstance(plan, dict) else None
+    if flags and not _interp_matches(flags):
+        # found under other interpreter flags (e.g. python -O): replayed under the same flags, in a fresh interpreter
+        res = _run_plan_in_variant(mod, plan, flags)
+    else:
+        res = mod.run_plan(plan, trace=True) if _accepts_trace(mod) else mod.run_plan(plan)
     same = [v for v in res.violations if v["signature"] == doc["signature"]]
     if same and res.digest == doc["digest"]:
         print(f"VIOLATION property={doc['property']} replay={path}")
